@@ -2,13 +2,15 @@
 
 from __future__ import annotations
 
+import copy
+
 from hgmon import core, families, gen, monitors, rt
 from hgmon.build import all_fids
 
 LEVEL = "exploration"
 RULE = (
     "all program families (DAG, fallback DAG, gated, loops, nested to depth 3, map_over nodes with zip/product and "
-    "0-3 items, cached nodes run twice on a shared cache, wait_for DAGs, runner.map) under the sync runner and the async "
+    "0-3 items, cached nodes and cached gates run twice on a shared cache (also a backend whose k-th write fails), wait_for DAGs, runner.map) under the sync runner and the async "
     "runner (natural schedule and random controlled completion orders, max_concurrency 1-2, yield-injecting async "
     "processors that turn every emission into a suspension point), fault-free, with each of 2 sampled nodes failing "
     "(raise and continue) and with a selected-but-missing output under on_missing='error'; rejected calls. Oracle: "
@@ -72,13 +74,41 @@ def check_stream(ctx, o, spec, tag, label, case, cache_hits_expected=None):
     return st
 
 
+class FlakySetCache:
+    """A user-supplied backend whose k-th write fails (quota, full disk): reads and the other writes work."""
+
+    def __init__(self, fail_at):
+        from hypergraph import InMemoryCache
+
+        self.inner, self.fail_at, self.sets = InMemoryCache(), fail_at, 0
+
+    def get(self, key):
+        return self.inner.get(key)
+
+    def set(self, key, value):
+        self.sets += 1
+        if self.sets == self.fail_at:
+            raise OSError("cache backend: write failed")
+        self.inner.set(key, value)
+
+
 def variants(ctx, fam):
     spec, inputs, kw = fam["spec"], fam["inputs"], dict(fam.get("kw", {}))
     Rec, ARec = rt.make_processors()
     rng = ctx.rng
+    if fam["family"] == "gated" and rng.random() < 0.7:
+        # cached gates and cached branch nodes: a hit must still put the route decision inside the gate's span
+        spec = copy.deepcopy(spec)
+        for ns in spec["nodes"]:
+            if ns["k"] in ("ifelse", "route", "fn") and rng.random() < 0.7:
+                ns["cache"] = True
+        fam = {**fam, "family": "cached", "spec": spec}
+        ctx.obs["cached_gated_programs"] += 1
     case = {"family": fam["family"], "spec": spec, "inputs": inputs}
     fids = [f for f, ns in all_fids(spec).items() if ns["k"] == "fn"]
-    fails = [None] + ([{f: RuntimeError(f"boom {f}")} for f in rng.sample(fids, min(2, len(fids)))] if fids else [])
+    # failing nodes; half of the exceptions have an EMPTY message (a failure is a failure whatever str(e) is)
+    fails = [None] + ([{f: (RuntimeError(f"boom {f}") if rng.random() < 0.5 else RuntimeError())} for f in rng.sample(fids, min(2, len(fids)))] if fids else [])
+    flaky_at = rng.randint(1, 4) if fam["family"] == "cached" and rng.random() < 0.5 else None
     nstreams = 0
     for fail in fails:
         modes = ("raise",) if fail is None else ("raise", "continue")
@@ -90,7 +120,8 @@ def variants(ctx, fam):
             if fam["family"] == "cached":
                 from hypergraph import InMemoryCache
 
-                cache = InMemoryCache()
+                cache = InMemoryCache() if flaky_at is None else FlakySetCache(flaky_at)
+                ctx.obs["flaky_cache_configs"] += int(flaky_at is not None)
             c2 = {**case, "fail": sorted(fail) if fail else None, "mode": mode}
             runs = 2 if cache is not None else 1
             for rep in range(runs):
@@ -165,6 +196,6 @@ def run(ctx):
         if i % 6 == 5:
             map_call(ctx, i)
             continue
-        fam = families.rich(ctx.rng)
+        fam = families.gated(ctx.rng, deterministic=True) if i % 7 == 3 else families.rich(ctx.rng)
         k = variants(ctx, fam)
         ctx.case({"f": fam["family"], "s": gen.shape_of(fam["spec"])}, k > 0 and len(fam["spec"]["nodes"]) >= 2, sample={"family": fam["family"], "spec": fam["spec"], "inputs": fam["inputs"]} if i < 2 else None)
